@@ -160,7 +160,7 @@ func Main(t *testing.T, w World) {
 		t.Skip("VSIM_OUT not set; this test binary is driven by /verif/bin/vcheck")
 	}
 	debug.SetTraceback("all")
-	debug.SetMaxStack(256 << 20) // runaway recursion dies in a fraction of a second instead of eating 1 GB
+	debug.SetMaxStack(64 << 20) // runaway recursion dies in a fraction of a second instead of eating 1 GB
 	of, err := os.OpenFile(outPath, os.O_CREATE|os.O_WRONLY|os.O_APPEND, 0o644)
 	if err != nil {
 		fmt.Fprintln(os.Stderr, err)
